@@ -174,5 +174,10 @@ def make_failure(ctx, mode, rec, cls, signature, extra_fn, shrink_steps, impl_fn
         }[cls],
         "replay_cmd": f"./check {ctx['pid']} --replay <this file>",
     }
-    f["signature"] = signature(small, final.get("result") or {}) if (signature and cls == "holds") else None
+    sig = signature(small, final.get("result") or {}) if (signature and cls == "holds") else None
+    if isinstance(sig, list):
+        f["signatures"] = sig
+        f["signature"] = None
+    else:
+        f["signature"] = sig
     return f
